@@ -788,6 +788,51 @@ func runEpoch(res *vh.Result, emit func(Event), seed int64, epoch, win0, nw, ncl
 	}
 	close(stop)
 	mwg.Wait()
+	// audit window (not counted): maintenance has stopped, one client reads everything back - the complete history of every
+	// key, full scans, both sorted sets.  TLC judges it like any other window: a rejection here means the index no longer
+	// agrees with the committed log (persistent damage, not a transient stale read).
+	{
+		c := clients[0]
+		c.evs = c.evs[:0]
+		var ops []*Op
+		blank := func() *Op { return &Op{KVs: []KV{}, Keys: []string{}, Pre: []Pre{}, Ops: []XOp{}} }
+		for _, k := range keys {
+			o := blank()
+			o.T, o.K = "Hist", k
+			ops = append(ops, o)
+			g := blank()
+			g.T, g.K, g.Mode = "Get", k, "def"
+			ops = append(ops, g)
+		}
+		for _, desc := range []bool{false, true} {
+			o := blank()
+			o.T, o.Desc = "Scan", desc
+			ops = append(ops, o)
+		}
+		for _, z := range sets {
+			o := blank()
+			o.T, o.Set = "ZScan", z
+			ops = append(ops, o)
+		}
+		o := blank()
+		o.T = "Count"
+		ops = append(ops, o)
+		aw := 100000 + epoch
+		for _, e := range func() []Event { mmu.Lock(); defer mmu.Unlock(); x := append([]Event{}, mevs...); mevs = mevs[:0]; return x }() {
+			e.W, e.Epoch = aw, epoch
+			emit(e)
+		}
+		for _, op := range ops {
+			s0 := atomic.AddInt64(&seq, 1)
+			r, msg := exec(db, op)
+			s1 := atomic.AddInt64(&seq, 1)
+			rr := r
+			emit(Event{Ev: "Call", C: c.id, Seq: s0, Op: op, Res: &rr, W: aw, Epoch: epoch})
+			emit(Event{Ev: "Ret", C: c.id, Seq: s1, Res: &rr, Msg: msg, W: aw, Epoch: epoch})
+			res.Count("audit:"+op.T+":"+r.E, 1)
+		}
+		emit(Event{Ev: "Cut", W: aw, Epoch: epoch})
+	}
 	vh.Must(db.Close(), "close db")
 	res.Distinct += nw
 	os.RemoveAll(dir)
